@@ -215,7 +215,8 @@ def materialise(case, root: Path):
             continue
         p = root / f["path"]
         if f["kind"] == "csv":
-            p.write_text("".join(SEP.join(sc(c) for c in r) + "\n" for r in f["sheets"][0]["rows"]), newline="")
+            p.write_text("".join(case.get("sep", SEP).join(sc(c) for c in r) + "\n"
+                                 for r in f["sheets"][0]["rows"]), newline="")
         elif f["kind"] == "xlsx":
             wb = openpyxl.Workbook()
             wb.remove(wb.active)
@@ -274,7 +275,8 @@ def observe_world(case, m):
             sheets.append({"name": None, "use": True, "rows": [list(r) for r in m.mem_store[f["path"]]]})
         elif f["kind"] == "csv":
             with open(m.path_of[fid]) as fh:
-                sheets.append({"name": None, "use": True, "rows": [ln.rstrip("\n").split(SEP) for ln in fh]})
+                sheets.append({"name": None, "use": True,
+                               "rows": [ln.rstrip("\n").split(case.get("sep", SEP)) for ln in fh]})
         else:
             wb = openpyxl.load_workbook(m.path_of[fid], read_only=True, data_only=True, keep_links=False)
             try:
@@ -448,9 +450,14 @@ def run_impl(case, m, time_limit=20, shared=None, audit_prefix=None, after_load=
         kwargs["sheet_name_pattern"] = re.compile(case["sheet_pattern"])
     if case["mem"]:
         kwargs["additional_protocol_loaders"] = protocols
-    if case.get("csv_sep"):
-        kwargs["csv_sep"] = SEP
+    if case.get("sep", SEP) != SEP or case.get("csv_sep"):
+        kwargs["csv_sep"] = case.get("sep", SEP)
     roots = None if case["roots"] is None else [subst(s, m) for s in case["roots"]]
+    if roots is not None:
+        # the roots collection as a list, a tuple, a one-shot generator or a dict view
+        form = case.get("roots_form", "list")
+        roots = {"list": lambda x: x, "tuple": tuple, "generator": lambda x: (y for y in x),
+                 "dict_keys": lambda x: dict.fromkeys(x).keys() if len(set(x)) == len(x) else x}[form](roots)
     r.blocks, r.exc, r.runaway = [], None, False
     total_rows = sum(len(s["rows"]) for f in case["files"] for s in f["sheets"])
     limit = 50 * (total_rows + 10)
@@ -790,6 +797,10 @@ TOK = "#f{}s{}"
 ODD = ["\x0b", "\x0c", "\x1c", "\x1d", "\x1e", "\x85", "\u2028", "\u2029"]
 
 
+# U+FEFF inside a value, astral characters: ordinary text as far as the loader is concerned
+UNI = ["\ufeff", "\U0001F600", "\U0001D538", "\U00020000", "\u00e9"]
+
+
 def gen_sheet(rng, fi, si, name, elements, xlsx, offsets=True, lead_fixed=None):
     """rows + ground truth of one sheet.  elements: ("meta",) ("table", nm) ("include", [(spec, target)…])
     ("directive", nm, [lines]) ("template",) — separated by blank rows / a comment row / nothing"""
@@ -802,9 +813,12 @@ def gen_sheet(rng, fi, si, name, elements, xlsx, offsets=True, lead_fixed=None):
 
     def odd():
         # workbooks cannot hold control characters (openpyxl refuses them); CSV and mem: files can
-        if xlsx or not offsets or rng.random() > 0.3:
+        if not offsets:
             return ""
-        return rng.choice(ODD) + (rng.choice(ODD) if rng.random() < 0.2 else "")
+        u = rng.choice(UNI) if rng.random() < 0.12 else ""
+        if xlsx or rng.random() > 0.3:
+            return u
+        return u + rng.choice(ODD) + (rng.choice(ODD) if rng.random() < 0.2 else "")
 
     first = True
     if lead_fixed is not None:
@@ -1067,6 +1081,10 @@ def build_case(rng, n_files, edges, *, folders, kinds, root_folder, roots_mode, 
     if roots_mode == "default" and root_folder:
         case["roots"] = None
         case["root_targets"] = [("D", "")]
+    elif roots_mode == "empty":
+        # an explicitly empty roots collection: nothing is asked for, nothing is read — root folder or not
+        case["roots"] = []
+        case["root_targets"] = []
     else:
         if roots_mode == "folder":
             tg = [("D", "")]
@@ -1151,6 +1169,18 @@ def gen_cases(tier, seed, search=False):
         crng = make_rng(seed, f"C16:r:{k}")
         yield idx, random_case(crng)
         idx += 1
+    # (c) long include chains: file i includes file i+1 (the last one closes the cycle half the time)
+    for n in ([64, 130] if not thorough else [64, 130, 257, 600]):
+        crng = make_rng(seed, f"C16:chain:{n}")
+        es = {(i, i + 1) for i in range(n - 1)}
+        if crng.random() < 0.5:
+            es.add((n - 1, crng.randrange(n)))
+        case = build_case(crng, n, es, folders=crng.choice(FOLDER_LAYOUTS[:4]), kinds=["csv"] * n,
+                          root_folder=crng.random() < 0.5, roots_mode="file", start_pattern=None,
+                          tracker="collecting", allow_include=True, mem=False, rich=False)
+        case["gen"] = {"chain": n}
+        yield idx, case
+        idx += 1
 
 
 def random_case(crng, xlsx_share=0.2, force_mem=False):
@@ -1189,7 +1219,7 @@ def random_case(crng, xlsx_share=0.2, force_mem=False):
         for i in range(n):
             if crng.random() < 0.5:
                 extra.append((i, ("BAD", "sibling")))
-    roots_mode = crng.choice(["default", "folder", "file", "file", "two"])
+    roots_mode = crng.choice(["default", "folder", "file", "file", "two", "file", "two", "empty"])
     start = crng.choice([None, None, "in_", "(in|set)_", "(?!x_)"])
     case = build_case(crng, n, es, folders=folders, kinds=kinds, root_folder=root_folder,
                       roots_mode=roots_mode, start_pattern=start,
@@ -1198,6 +1228,7 @@ def random_case(crng, xlsx_share=0.2, force_mem=False):
                       sheet_pattern=crng.choice([None, None, "in_", "(in|set)_"]), opts={"sibling": sibling})
     case["gen"] = {"random": True}
     case["tracker_form"] = crng.choice(TRACKER_FORMS)
+    case["roots_form"] = crng.choice(["list", "list", "tuple", "generator", "dict_keys"])
     r = crng.random()
     case["pattern_mode"] = "compiled" if r < 0.45 else "both" if (r < 0.5 and start is not None) else "start"
     return case
@@ -1228,7 +1259,8 @@ def short_case(case):
 
 def classify(case, impl, out):
     g = case.get("gen", {})
-    out.count("gen:" + ("graph%d" % g["n"] if "graph" in g else "random"))
+    out.count("gen:" + ("graph%d" % g["n"] if "graph" in g else "chain%d" % g["chain"] if "chain" in g
+                        else "history" if "history" in g else "random"))
     out.count("tracker:" + case["tracker"] +
               (":" + case.get("tracker_form", "plain") if case["tracker"] == "collecting" else ""))
     out.count("root_folder:" + str(case["root_folder"]))
@@ -1250,7 +1282,9 @@ def classify(case, impl, out):
            for sh in f["sheets"] for b in sh["truth"] if b["ty"] == "DIRECTIVE" and b["name"] == "include"
            for r in sh["rows"][b["row"] + 1: b["row"] + 1 + len(b["lines"])] if r):
         out.count("cases_with_a_non_text_include_line")
-    out.count("roots:" + ("default" if case["roots"] is None else str(len(case["roots"]))))
+    out.count("roots:" + ("default" if case["roots"] is None else str(len(case["roots"]))) +
+              ("" if case["roots"] is None else ":" + case.get("roots_form", "list")) +
+              (":rooted" if case["root_folder"] else ":unrooted"))
     if any(len(b["lines"]) != len(set(b["lines"])) for f in case["files"] for sh in f["sheets"]
            for b in sh["truth"] if b["ty"] == "DIRECTIVE" and b["name"] == "include"):
         out.count("cases_with_a_specification_repeated_in_one_directive:" + case["tracker"])
@@ -1265,7 +1299,7 @@ def classify(case, impl, out):
         out.count("filekind:" + f["kind"])
 
 
-def dispatch_stream(tier, seed, out, ops, pend):
+def dispatch_stream(tier, seed, out, ops, pend, only=None):
     """function level: make_loader(additional_protocol_loaders=d) builds the ProtocolLoader; which loader does
     `.resolve` hand a specification to?  Dicts of 1-3 names, possibly with their own "file" entry, a name that is
     a prefix of another, names with a colon; specifications in mixed case.  Compared with driver op `dispatch`;
@@ -1286,25 +1320,20 @@ def dispatch_stream(tier, seed, out, ops, pend):
             self.log.append(self.no)
             return None
 
-    for k in range(n):
-        names = rng.sample(names_pool, rng.choice([1, 2, 2, 3]))
+    def one(names, spec, k):
         log = []
         add = {nm: Stub(i + 1, log) for i, nm in enumerate(names)}
         number = {nm: i + 1 for i, nm in enumerate(names)}
         loader = make_loader(additional_protocol_loaders=add, allow_include=False)
         handlers = loader.protocol_handlers
-        if list(add.keys()) != names:
-            out.fail("make_loader changed the caller's additional_protocol_loaders dict",
-                     {"dispatch": {"additional": [[nm, number[nm]] for nm in names], "spec": ""}, "seed": seed,
-                      "index": f"d{k}"}, sorted(map(str, add.keys())), names, key="caller_dict_modified")
-            continue
-        if "file" not in names:
-            handlers["file"].resolve = Stub(0, log).resolve        # the built-in file-system loader is loader 0
-        pick = rng.choice(names + ["file", "FILE", "nothing", ""])
-        pre = "".join(ch.upper() if rng.random() < 0.4 else ch for ch in pick)
-        spec = (pre + ":" if rng.random() < 0.8 else pre) + rng.choice(bodies)
         case = {"dispatch": {"additional": [[nm, i + 1] for i, nm in enumerate(names)], "spec": spec},
                 "seed": seed, "index": f"d{k}"}
+        if list(add.keys()) != names:
+            out.fail("make_loader changed the caller's additional_protocol_loaders dict", case,
+                     sorted(map(str, add.keys())), names, key="caller_dict_modified")
+            return
+        if "file" not in names:
+            handlers["file"].resolve = Stub(0, log).resolve        # the built-in file-system loader is loader 0
         try:
             loader.resolve(LoadItem(spec, None), None)
             got = log[-1] if log else None
@@ -1327,6 +1356,16 @@ def dispatch_stream(tier, seed, out, ops, pend):
         if ops is not None:
             ops.append({"op": "dispatch", "additional": case["dispatch"]["additional"], "spec": spec})
             pend.append(("dispatch", case, got))
+
+    if only is not None:
+        one([nm for nm, _ in only["additional"]], only["spec"], 0)
+        return
+    for k in range(n):
+        names = rng.sample(names_pool, rng.choice([1, 2, 2, 3]))
+        pick = rng.choice(names + ["file", "FILE", "nothing", ""])
+        pre = "".join(ch.upper() if rng.random() < 0.4 else ch for ch in pick)
+        spec = (pre + ":" if rng.random() < 0.8 else pre) + rng.choice(bodies)
+        one(names, spec, k)
 
 
 def gen_histories(tier, seed, search=False):
@@ -1455,10 +1494,8 @@ def replay(rep):
     case = rep.get("input") or {}
     if "dispatch" in case:
         o = Outcome()
-        # the stream is regenerated: the case is found by its index
-        dispatch_stream("thorough", int(rep.get("seed", 0)), o, None, None)
-        hit = [f for f in o.failures if f["input"]["dispatch"] == case["dispatch"]]
-        return (False, hit[0]["what"]) if hit else (True, "property holds on this input")
+        dispatch_stream("quick", 0, o, None, None, only=case["dispatch"])
+        return (False, o.failures[0]["what"]) if o.failures else (True, "property holds on this input")
     if "history" in case:
         scratch = Path(tempfile.mkdtemp(prefix="c16r-")).resolve()
         try:
